@@ -29,6 +29,7 @@
 
   -- API: Cx.Intrinsics.M128i, M256i, the `_mm_*` / `_mm256_*` functions below, read_i32, the load/store families
 -/
+import CxVerif.Util.DebugAssert
 namespace Cx.Intrinsics
 
 /-! ## vector registers and their element views -/
